@@ -423,7 +423,22 @@ def check(prop, tier, workers, runs_override=None, verif_seed=0, max_wall=None):
                 print(f"HARNESS-ERROR: violation {sig} did not reproduce from its replay file {path}: {err}", flush=True)
                 exit_code = 2
     finally:
+        # Never leave worker processes behind: they inherit stdout, and a caller that waits for
+        # EOF on our output would wait for them.
+        procs = list(getattr(pool, "_processes", {}).values())
         pool.shutdown(wait=False, cancel_futures=True)
+        for pr in procs:
+            try:
+                pr.terminate()
+            except Exception:  # noqa: BLE001
+                pass
+        for pr in procs:
+            try:
+                pr.join(2.0)
+                if pr.is_alive():
+                    pr.kill()
+            except Exception:  # noqa: BLE001
+                pass
     for (p, what), n in sorted(known_hits.items()):
         print(f"KNOWN-FINDING: property={p} {what} ({n} runs)", flush=True)
     wall = time.time() - t_start
